@@ -618,6 +618,7 @@ class World:
         return [i for i in self.instances.values() if i['ended'] is None and (uid is None or i['uid'] == uid)]
 
     def close(self) -> None:
+        self.close_seq = self.seq          # whatever ends after this point was ended by the harness, not by the operator
         self.closing = True
         self.release = True
         for h in self.touch_handles.values():
